@@ -6,7 +6,7 @@
    (Gen/TplCl.v).  strconv.Unquote/UnquoteChar are inputs of the model ([unq], assumed [unq_ok]). *)
 From Coq Require Import List NArith ZArith Bool Arith Lia.
 Import ListNotations.
-From V Require Import Base.Prelude Base.TplRes Gen.Tokens Gen.TplCl Model.C31 Model.Tpl Model.TplCl Proofs.TplCl.
+From V Require Import Base.Prelude Base.TplRes Gen.Tokens Gen.TplCl Model.C31 Model.Tpl Model.TplCl Proofs.TplCl Gen.TplFirst Proofs.TplFirst.
 Local Open Scope nat_scope.
 
 (* Token.Len never indexes outside the tokens table, for every token a one-byte literal can denote *)
@@ -40,6 +40,12 @@ Theorem C27_new_no_panic_tokens : forall unq ts rs, unq_ok unq -> toks_char_ok t
   exists r, compile unq rs = Ok r.
 Proof. exact new_no_panic_tokens. Qed.
 
+(* K-gen: NewEx's recover converts exactly the panic of Var.First (RecursiveError, also raised for a rule whose
+   body failed to compile: Elem == nil); the body of every First method is regenerated from the source and
+   must be the rule the model implements *)
+Theorem C27_first_rules_match_source : tplfirst_rules = model_first_rules.
+Proof. exact first_rules_match_source. Qed.
+
 (* the hypotheses matter: a nil operand (possible only after a reported parse error) or a CHAR
    literal shorter than two bytes (possible only after a reported scan error) would panic *)
 Theorem C27_nil_operand_panics : forall unq rules o, compile_expr unq rules (EUn o ENil) = Panic.
@@ -66,7 +72,15 @@ Proof.
   - intros l v. unfold unq_ex. destruct (str_eqb l _); intros H; injection H as <-; reflexivity.
 Qed.
 
+(* a rule that fails to compile, referenced from a choice: an error list, not a panic
+     doc = a | INT     a = "@@" *)
+Example C27_example_broken_rule_referenced :
+  compile (fun _ _ => UqStr [64; 64]%N)
+          [([100]%N, EChoice [EIdent [97]%N; EIdent [73;78;84]%N]); ([97]%N, ELit false [34;64;64;34]%N)] = Ok None.
+Proof. vm_compute. reflexivity. Qed.
+
 Print Assumptions C27_token_len_total.
+Print Assumptions C27_first_rules_match_source.
 Print Assumptions C27_check_token_range.
 Print Assumptions C27_compile_expr_no_panic.
 Print Assumptions C27_compile_no_panic.
